@@ -38,7 +38,7 @@ def main():
         alarms = {}
         for i in range(1, 21):
             c = 'C%02d' % i
-            rc, out = sh([PY, '-m', 'sfcv', 'check', c, '--root', wt], cwd='/verif')
+            rc, out = sh([PY, '-m', 'sfcv', 'check', c, '--root', wt], cwd='/verif', env=dict(os.environ, SFCV_OUT_DIR=wt + '/_sfcv_out'))
             if rc != 0:
                 lines = [l.strip() for l in out.splitlines() if (l.startswith('  ') and ('  C%02d.' % i) in l) or l.startswith('ANALYSIS-ERROR')]
                 alarms[c] = {'rc': rc, 'lines': [x[:400] for x in lines[:5]]}
@@ -55,7 +55,6 @@ def main():
     finally:
         sh(['git', '-C', '/repo', 'worktree', 'remove', '--force', wt])
         shutil.rmtree(wt, ignore_errors=True)
-        sh(['git', '-C', '/verif', 'checkout', '--', 'evidence'])
 
 
 if __name__ == '__main__':
